@@ -36,7 +36,8 @@ RULE = ("success cells: (force field x standard residue x position N/I/C) tripep
         "(each stage function x exception type x k-th call), random LINE failpoints before print_pqr; both absent "
         "and pre-seeded output paths; API and CLI entry. Non-trivial: a fault that actually fired (or a natural "
         "fault); distinct = (fault class, stage or statement module, exception type, sentinel mode, entry)"
-        ' Round-2 additions: option lattice on well-formed titratable-rich structures (noopt x pKa route x drop-water x force field, other output options on top): a run that fails although the same structure succeeds with --ff alone is a violation; alias names, insertion codes and gaps in the mixed structures.')
+        ' Round-2 additions: option lattice on well-formed titratable-rich structures (noopt x pKa route x drop-water x force field, other output options on top): a run that fails although the same structure succeeds with --ff alone is a violation; alias names, insertion codes and gaps in the mixed structures.'
+        " Round-3/4 additions: --assign-only round trips on the run's own --pdb-output; chain-topology stressors; unequal carboxyl C-O bonds in the option lattice; the non-integral user force field fault on systems with 150-650 waters.")
 ASSUMPTIONS = ["stages named by the property end where print_pqr is entered; I/O faults during the final write are "
                "outside its stage list and are not injected",
                "a fault swallowed by the code's own handler followed by a complete file is a legitimate success"]
